@@ -85,7 +85,14 @@ def to_console(fg, bg, tuned_fg, original_level=None, new_level=None):
 
     # Print label row then panels
     console.print(label_table)
-    main_table.add_row(original_panel, "→", tuned_panel)
+    # the arrow is the only non-ASCII character of the preview: fall back to "->" when the
+    # output stream cannot encode it (e.g. redirected output under an ASCII or cp1252 locale)
+    arrow = "→"
+    try:
+        arrow.encode(console.encoding or "utf-8")
+    except (UnicodeEncodeError, LookupError):
+        arrow = "->"
+    main_table.add_row(original_panel, arrow, tuned_panel)
     console.print(main_table)
 
 
